@@ -38,7 +38,7 @@ ResetVars(c, st) ==
     /\ par' = [minDE |-> c.minDE, maxDE |-> c.maxDE, gas |-> c.gas]
     /\ cq' = st.cq /\ sg' = LSg(st) /\ pendN' = st.pendN /\ evDE' = ToSet(st.evDE)
     /\ priv' = ToSet(st.priv) /\ mq' = LMq(st) /\ cnt' = st.cnt /\ nextTok' = st.nextTok
-    /\ usedFor' = [t \in Toks |-> {}] /\ everSub' = {} /\ calm' = TRUE /\ out' = "-"
+    /\ usedFor' = [t \in Toks |-> {}] /\ everSub' = {} /\ sentKeys' = {} /\ calm' = TRUE /\ out' = "-"
 
 DaemonOK == ~Line.o.crashed
 
